@@ -131,6 +131,9 @@ class Flows:
         self.s = s = Scenario(block, name=names, keep=keep, keep_env=keep_env,
                               dialog_timeout=o.get("dialog_timeout", 1200))
         self.names = names
+        # the same table written down differently: several dests per route item, host names in the file's global table,
+        # a global entry overridden by the service's own
+        s.yaml_style = {"merge": r.random() < 0.5, "global": r.random() < 0.4, "override": r.random() < 0.3}
         nb = o.get("backends", r.choice([0, 1, 2, 2, 3, 4]))
         self.backends = [s.ip(11 + i) + b":5070" for i in range(nb)]
         for b in self.backends:
